@@ -122,6 +122,29 @@ def check(prog, rep, tier):
                 break
         if okx:
             rep.ok("C14.bloom", f"{ctx}.add_alt: +1 on every path")
+    # the count persisted in the on-disk filter's file follows every mutator, and export copies a synced file
+    rep.rule("C14.ondisk-persisted", "on-disk Bloom: every mutator of persisted state rewrites the stored count; export syncs before copying", floor=2)
+    from ..effects import Effects
+    from .C19 import ondisk_sync_lemma
+    missing = ondisk_sync_lemma(prog, Effects(prog))
+    if missing:
+        m_ = missing[0]
+        rep.bad("C14.ondisk-persisted", f"BloomFilterOnDisk.{m_.src_name}", "mutator without footer sync",
+                f"{m_.cls.name}.{m_.src_name} changes the bits or the counter of an on-disk filter without rewriting the count stored in the file: "
+                "a copy exported (or the file reopened) before the next add reports a stale elements_added", m_.where())
+    else:
+        rep.ok("C14.ondisk-persisted", "every mutator of persisted state reaches __update")
+    fe = prog.method("BloomFilterOnDisk", "export")
+    oke = True
+    for p in paths(prog, "BloomFilterOnDisk", fe):
+        cp = [i for i, e in enumerate(p.events) if e.kind == "call" and e.name == "copyfile"]
+        up = [i for i, e in enumerate(p.events) if e.kind == "call" and e.target is not None and e.target.src_name == "__update"]
+        if cp and (not up or up[0] > cp[0]):
+            rep.bad("C14.ondisk-persisted", "BloomFilterOnDisk.export", "copy without sync", "export copies the backing file without first writing the current element count into it", fe.where())
+            oke = False
+            break
+    if oke:
+        rep.ok("C14.ondisk-persisted", "BloomFilterOnDisk.export: __update before copyfile")
     # ---------------------------------------------------------------- counting Bloom
     ctx = "CountingBloomFilter"
     num = ("p", "num_els")
@@ -383,7 +406,7 @@ def check(prog, rep, tier):
         rep.bad("C14.bloom-statistics", "CountingBloomFilter._cnt_number_bits_set", f"returns {[nshow(x) for x in rv]}", "the set-position count is not the number of non-zero cells", f.where())
 
 
-from ..selftest import Mutant, del_stmt, insert_stmt, replace_expr, replace_stmt
+from ..selftest import Mutant, del_stmt, insert_stmt, replace_expr, replace_stmt, seq
 
 _B, _CB, _E, _CM, _CK, _CC, _Q = ("blooms/bloom.py", "blooms/countingbloom.py", "blooms/expandingbloom.py", "countminsketch/countminsketch.py",
                                   "cuckoo/cuckoo.py", "cuckoo/countingcuckoo.py", "quotientfilter/quotientfilter.py")
@@ -405,5 +428,7 @@ MUTANTS = [
     Mutant("union result counter = sum of operands", _B, replace_stmt("BloomFilter", "union", "res.elements_added = res.estimate_elements()", "res.elements_added = self.elements_added + second.elements_added"), rule="C14.bloom-stat"),
     Mutant("quotient load factor from size only", _Q, replace_expr("QuotientFilter", "load_factor", "self._elements_added / self._size", "len(self._filter) / self._size"), rule="C14.load"),
     Mutant("expanding add_alt counts only effective insertions", _E, replace_stmt("ExpandingBloomFilter", "add_alt", "self._added_elements += 1", "pass"), rule="C14.bloom"),
+    Mutant("on-disk clear and export only flush the mapping", _B,
+           seq(replace_stmt("BloomFilterOnDisk", "clear", "self.__update()", "self._bloom.flush()"), replace_stmt("BloomFilterOnDisk", "export", "self.__update()", "self._bloom.flush()")), rule="C14.ondisk"),
     Mutant("quotient _add counts before the space check (same on normal paths)", _Q, replace_stmt("QuotientFilter", "_add", "if self._size == self._elements_added", "if self._size <= self._elements_added:\n    raise QuotientFilterError('Unable to insert the element due to insufficient space')"), expect="silent"),
 ]
